@@ -26,7 +26,7 @@ CXX := g++
 CXXFLAGS := -std=c++14 -O2 -g1 -w
 LDFLAGS :=
 endif
-LIBS := -lpcap -lcrypto -lpthread
+LIBS := -lpcap -lcrypto -lpthread -ldl
 
 ENGINES_asan := tcp frag sock disk own wire wlan
 ENGINES_sancov := thr
